@@ -132,6 +132,8 @@ class World:
     def W(self, name, w=64):
         if self.fixed is not None:
             return int(self.fixed.get(name, 0))
+        if name in self.partial:
+            return int(self.partial[name])
         if name not in self.v: self.v[name] = z3.BitVec(name, w)
         return self.v[name]
 
